@@ -105,6 +105,14 @@ pub fn mutate_field(doc: &Value, pointer: &str, p: &mut Prng) -> Option<(Value, 
     }
     let choice = p.below(5);
     let replaced: Option<Value> = match (&node, choice) {
+        (Value::Number(_), 3) => {
+            mutation = "number-huge".to_string();
+            Some(Value::from(u64::MAX))
+        }
+        (Value::Number(_), 4) => {
+            mutation = "number-negative-or-fractional".to_string();
+            Some(if p.chance(1, 2) { Value::from(-7) } else { Value::from(1.5) })
+        }
         (Value::Number(n), _) => {
             mutation = "number+1".to_string();
             if let Some(i) = n.as_i64() {
